@@ -38,46 +38,46 @@ func (p Params) Str(k, def string) string {
 }
 
 type Result struct {
-	Scen         string            `json:"scen"`
-	Seed         int64             `json:"seed"`
-	Params       map[string]string `json:"params,omitempty"`
-	Verdict      string            `json:"verdict"` // held | violated | inconclusive
-	Inconclusive string            `json:"inconclusive,omitempty"`
-	Violations   []mon.Violation   `json:"violations,omitempty"`
-	Counts       map[string]int    `json:"counts,omitempty"`
-	Trace        string            `json:"trace"`
-	Steps        []string          `json:"steps,omitempty"`
-	Nontrivial   map[string]bool   `json:"nontrivial,omitempty"`
-	Cover        map[string]int    `json:"cover,omitempty"`
-	Offline      *oracle.Stats     `json:"offline,omitempty"`
+	Scen         string              `json:"scen"`
+	Seed         int64               `json:"seed"`
+	Params       map[string]string   `json:"params,omitempty"`
+	Verdict      string              `json:"verdict"` // held | violated | inconclusive
+	Inconclusive string              `json:"inconclusive,omitempty"`
+	Violations   []mon.Violation     `json:"violations,omitempty"`
+	Counts       map[string]int      `json:"counts,omitempty"`
+	Trace        string              `json:"trace"`
+	Steps        []string            `json:"steps,omitempty"`
+	Nontrivial   map[string]bool     `json:"nontrivial,omitempty"`
+	Cover        map[string]int      `json:"cover,omitempty"`
+	Offline      *oracle.Stats       `json:"offline,omitempty"`
 	Windows      *oracle.WindowStats `json:"windows,omitempty"`
-	Notes        []string          `json:"notes,omitempty"`
-	Fatal        []string          `json:"fatal,omitempty"`
-	WallMs       int64             `json:"wall_ms"`
-	Leaders      []string          `json:"leaders,omitempty"`
-	MaxRTTUs     int64             `json:"max_rtt_us,omitempty"`
-	MaxStallUs   int64             `json:"max_stall_us,omitempty"`
-	EventsFile   string            `json:"events_file,omitempty"`
-	NEvents      int               `json:"n_events,omitempty"`
+	Notes        []string            `json:"notes,omitempty"`
+	Fatal        []string            `json:"fatal,omitempty"`
+	WallMs       int64               `json:"wall_ms"`
+	Leaders      []string            `json:"leaders,omitempty"`
+	MaxRTTUs     int64               `json:"max_rtt_us,omitempty"`
+	MaxStallUs   int64               `json:"max_stall_us,omitempty"`
+	EventsFile   string              `json:"events_file,omitempty"`
+	NEvents      int                 `json:"n_events,omitempty"`
 }
 
 type Ctx struct {
-	C   *cluster.Cluster
-	M   *mon.Monitor
-	R   *rand.Rand
-	P   Params
-	Res *Result
+	C    *cluster.Cluster
+	M    *mon.Monitor
+	R    *rand.Rand
+	P    Params
+	Res  *Result
 	Root string
 	Seed int64
 
-	stop   atomic.Bool
-	cliWG  sync.WaitGroup
-	opN    atomic.Int64
-	OpCap  int64
+	stop        atomic.Bool
+	cliWG       sync.WaitGroup
+	opN         atomic.Int64
+	OpCap       int64
 	SkipOffline bool // scenarios that submit operations outside the recorded client history
-	smu    sync.Mutex
-	leaderHint atomic.Value // string
-	mu     sync.Mutex
+	smu         sync.Mutex
+	leaderHint  atomic.Value // string
+	mu          sync.Mutex
 }
 
 func (x *Ctx) Step(format string, args ...interface{}) {
@@ -232,8 +232,10 @@ func (x *Ctx) StopClients() {
 
 // Quiesce removes all faults, restarts everything that is down, and checks bounded progress (C15), counted in
 // protocol steps seen by the network, not in seconds:
-//  (a) within 40 candidacy rounds per voter there is a leader that then completes 20 heartbeat rounds unchallenged;
-//  (b) every live member reaches the applied index that leader had, within 300 completed exchanges on its link;
+//
+//	(a) within 40 candidacy rounds per voter there is a leader that then completes 20 heartbeat rounds unchallenged;
+//	(b) every live member reaches the applied index that leader had, within 300 completed exchanges on its link;
+//
 // a wall-clock watchdog firing first makes the result inconclusive (returns false without a violation).
 func (x *Ctx) Quiesce(bound time.Duration) bool {
 	x.M.Emit(mon.Event{Kind: mon.KPhase, Str: "heal"})
@@ -471,16 +473,16 @@ func (x *Ctx) TraceHash() string {
 // ---------------------------------------------------------------- random schedule (W1)
 
 type Profile struct {
-	Voters      int
-	Clients     int
-	Steps       int
-	Crash       bool
-	Snapshots   bool
-	Reads       bool
-	LeaseReads  bool
-	Torn        bool
-	CrashBias   bool
-	Bounce      bool // in-process Stop+Restart on the same object as a step kind
+	Voters       int
+	Clients      int
+	Steps        int
+	Crash        bool
+	Snapshots    bool
+	Reads        bool
+	LeaseReads   bool
+	Torn         bool
+	CrashBias    bool
+	Bounce       bool // in-process Stop+Restart on the same object as a step kind
 	StepGapMaxMs int
 }
 
@@ -630,7 +632,11 @@ func RandomSchedule(x *Ctx, pf Profile) {
 			}
 			id := pick(r, up)
 			x.Step("bounce %s (Stop + Restart on the same object)", id)
-			if err := x.C.Node(id).Bounce(); err != nil {
+			pause := time.Duration(0)
+			if r.Intn(2) == 0 {
+				pause = time.Duration(r.Intn(x.C.Opts.FSM.RestoreUs+x.C.Opts.FSM.SnapUs+3000)) * time.Microsecond
+			}
+			if err := x.C.Node(id).BounceAfter(pause); err != nil {
 				x.M.AddViolation(mon.Violation{Props: []string{"C18"}, Sig: "restart-error", Node: id, Msg: fmt.Sprintf("Restart() after Stop() returned %v", err)})
 			}
 		case "crash-plan":
@@ -641,9 +647,9 @@ func RandomSchedule(x *Ctx, pf Profile) {
 			id := pick(r, up)
 			p := RandomPlan(r, pf.Snapshots, pf.Torn)
 			if pf.Bounce {
-			kinds = append(kinds, "bounce", "bounce", "bounce")
-		}
-		if pf.CrashBias {
+				kinds = append(kinds, "bounce", "bounce", "bounce")
+			}
+			if pf.CrashBias {
 				p.Nth = 1 + r.Intn(2)
 			}
 			pos := "before"
